@@ -244,10 +244,12 @@ def _shrink_shard(args):
 
 def load_findings(prop: str) -> tuple[list[dict], list[dict]]:
     path = os.path.join(VERIF_DIR, 'known_findings.json')
-    if not os.path.exists(path):
-        return [], []
-    data = json.load(open(path))
-    ents = [e for e in data.get('findings', []) if e.get('property') == prop]
+    ents = []
+    if os.path.exists(path):
+        ents = [e for e in json.load(open(path)).get('findings', []) if e.get('property') == prop]
+    extra = os.environ.get('VERIF_EXTRA_KNOWN')   # development aid only: proposed/<Cxx>/known.json
+    if extra and os.path.exists(extra):
+        ents += [e for e in json.load(open(extra)) if e.get('property') == prop]
     return [e for e in ents if e.get('status') == 'known'], [e for e in ents if e.get('status') == 'fixed']
 
 
